@@ -39,8 +39,8 @@ CLAIMS['C03'] = {
     'design': 'DESIGN.md section 5 C03',
 }
 CLAIMS['C04'] = {
-    'text': 'The real match<Rule,A,M,Action,Control>() dispatcher (with match_control_unwind, unwind_guard, normal<Rule>::apply/apply0 and action_input) is proved for every apply mode x rewind mode x {no action, void apply, bool apply, void apply0, bool apply0} x {control with unwind, without unwind, normal}: the action runs exactly once iff the rule matched and actions are enabled, after the rule and before the closing hook, with an action input spanning exactly [entry iterator, cursor after the match); a void action changes neither result nor cursor; a false bool action turns the match into a local failure with the cursor restored; at/not_at call their sub-rule with actions disabled (stub precondition).',
-    'note': 'disable/enable/internal::action/apply/apply0/if_apply rules not yet under contract; the whole-run ordering statement is the induction over the derivation (paper step).',
+    'text': 'The real match<Rule,A,M,Action,Control>() dispatcher (with match_control_unwind, unwind_guard, normal<Rule>::apply/apply0 and action_input) is proved for every apply mode x rewind mode x {no action, void apply, bool apply, void apply0, bool apply0} x {control with unwind, without unwind, normal}: the action runs exactly once iff the rule matched and actions are enabled, after the rule and before the closing hook, with an action input spanning exactly [entry iterator, cursor after the match); a void action changes neither result nor cursor; a false bool action turns the match into a local failure with the cursor restored; at/not_at call their sub-rule with actions disabled (stub precondition); internal::disable/enable/action/control/apply/apply0/if_apply (group act) and the switch classes enable_action, disable_action, change_action, change_control, change_state, change_action_and_state, internal::state (group state) hand their sub-rule exactly the apply mode they promise (stub-apply-mode precondition).',
+    'note': 'change_states / change_action_and_states (std::tuple) are outside the lowering; the whole-run ordering statement is the induction over the derivation (paper step).',
     'design': 'DESIGN.md section 5 C04',
 }
 CLAIMS['C05'] = {
